@@ -382,8 +382,8 @@ Proof.
     unfold do_instantiate in Hs. rewrite Hn in Hs. cbn in Hs. rewrite pat_eqb_refl in Hs.
     rewrite rev_length, map_length.
     destruct d as [|kv d'].
-    + destruct s; [|discriminate]. inv Hs. cbn.
-      unfold R, set_stack, claims_view. cbn. rewrite py_inst_nil. repeat split; assumption.
+    + inv Hs. unfold R, set_tstack, set_stack, claims_view. cbn. rewrite py_inst_nil.
+      repeat split; assumption.
     + cbv iota in Hs.
       match type of Hs with (if ?c then _ else _) = _ => replace c with true in Hs by (symmetry; exact Hp) end.
       inv Hs.
